@@ -178,7 +178,7 @@ impl Prop for C02 {
         let viol = run(&sc, &mut w, &mut tr, cov);
         cov.sim_ns += w.sim_ns;
         cov.ops += w.ops;
-        RunResult { trace_hash: tr.hash(), violation: viol }
+        RunResult::new(tr.hash(), viol)
     }
 
     fn shrink(&self, scenario: &Value) -> Vec<Value> {
